@@ -4,6 +4,7 @@ import (
 	"fmt"
 
 	"github.com/csgura/fp/internal/atomic"
+	"github.com/csgura/fp/internal/verifhook"
 )
 
 type Runnable interface {
@@ -168,6 +169,9 @@ func (r Future[T]) Foreach(f func(v T), ctx ...Executor) {
 type goExecutor struct{}
 
 func (r goExecutor) ExecuteUnsafe(runnable Runnable) {
+	if verifhook.Spawn(runnable.Run) {
+		return
+	}
 	go runnable.Run()
 }
 
